@@ -53,6 +53,8 @@ structure Tx where
   id : Nat
   exp : Nat
   bodyOk : Bool
+  /-- hashes of the sub-transactions when the tx is a box -/
+  subs : List Nat := []
   deriving DecidableEq, Repr
 
 /-- `types.Block`: header + body. The body parts outside the tx list are represented by what the
@@ -114,6 +116,8 @@ structure Ctx where
   /-- `txGuard.ExistTxs(parentHash, txs)` -/
   onAncestor : Nat → List Tx → Bool
   reexec : Block → ExecRes
+  /-- `false` = the code before fix 828f704, whose `verifyTxs` did not look for a hash occurring twice inside the block -/
+  dupCheck : Bool := true
 
 def u32 : Nat := 4294967296
 
@@ -131,9 +135,18 @@ def txOk (blockTime : Nat) (tx : Tx) : Bool :=
   !(txExpiredCond (timeStamp := blockTime) (tx_Expiration := tx.exp)) &&
   !(txTooFarCond (timeStamp := blockTime) (tx_Expiration := tx.exp)) && tx.bodyOk
 
+/-- does a hash occur twice in the list -/
+def hasDup : List Nat → Bool
+  | [] => false
+  | x :: xs => xs.contains x || hasDup xs
+
+/-- all tx hashes and box sub-tx hashes of a block body, in the order `verifyTxs` visits them -/
+def blockHashes (txs : List Tx) : List Nat := txs.flatMap (fun t => t.id :: t.subs)
+
 /-- `verifyTxs` -/
 def verifyTxs (c : Ctx) (b : Block) : Option Reason :=
-  if c.onAncestor b.header.parentHash b.txs then some .txReplay
+  if c.dupCheck && hasDup (blockHashes b.txs) then some .txReplay
+  else if c.onAncestor b.header.parentHash b.txs then some .txReplay
   else if b.txs.all (txOk b.header.time) then none else some .txBody
 
 /-- rank of the parent's miner among the deputies of the target height -/
